@@ -1632,6 +1632,19 @@ func ruleExpire(r *Report) {
 			}
 			if fromParam(src.X) {
 				merged = true
+				// … where the caller's interval is positive (0 < o.Vacuum), not where it is not
+				srcV := norm(st.Val)
+				wrong := edgeGuarded(st.Block(), func(c ssa.Value) (bool, bool) {
+					if x, y, neg, isCmp := lessThan(c); isCmp {
+						if z, isC := constInt(y); isC && z == 0 && sameExpr(x, srcV) {
+							return true, !neg // o.Vacuum < 0
+						}
+					}
+					return false, false
+				})
+				if wrong {
+					merged = false
+				}
 			}
 		})
 		hx.Check(merged, "column.NewCollection/interval-option", r.P.Pos(fn.Pos()), "options.Vacuum := the caller's Vacuum", "the caller's cleanup interval (Options.Vacuum) is not copied into the effective options: the cleanup runs at the default interval whatever was configured")
